@@ -343,11 +343,11 @@ def check_concrete(c, work):
         if c["flavour"] == "file":
             with open(path, newline="") as fh:
                 if fh.read() != tsv:
-                    V("mutates-input:file:" + names, "%s: the input file was rewritten by run_operations" % where)
+                    V("mutates-input:file", "%s: the input file was rewritten by run_operations" % where)
         else:
             if list(arg.columns) != list(snap.columns) or not arg.equals(snap) or \
                     [str(x) for x in arg.dtypes] != [str(x) for x in snap.dtypes]:
-                V("mutates-input:" + names, "%s: the input DataFrame was changed: now %s" % (where, _show(project(arg))))
+                V("mutates-input:dataframe", "%s: the input DataFrame was changed: now %s" % (where, _show(project(arg))))
         # ---- parameters unchanged ----
         now = _fmt_ops(ops)
         if now != before and leaked is None:
@@ -662,7 +662,7 @@ def b_report(ctx, recs, r):
                 if leaked and step > 1:
                     key = "order-dependent:" + leaked
             elif clause == "pure":
-                key = "mutates-params:" + side["changed"] if side["changed"] != "input" else "mutates-input:" + sg
+                key = "mutates-params:" + side["changed"] if side["changed"] != "input" else "mutates-input:dataframe"
             elif clause == "order":
                 key = "order-dependent:" + (leaked or "+".join(x[0] for x in sigs))
             elif clause == "result":
